@@ -75,7 +75,17 @@ def gen_gt(rng, idx, small=True):
             k = rng.below(10)
             if k == 0:
                 ln = rng.range(0, 6)
-                files.append(TFile(ln, [b".pad", b"%d" % rng.below(50)], bytes(ln), pad=True))
+                # `.pad/<digits>`: any digit string, however long (a padding file is named after its size; nothing says
+                # the number fits a machine word), leading zeros, and the non-ASCII numerics char::is_numeric accepts
+                nm = rng.choice([b"%d" % rng.below(50)] * 5 + [b"18446744073709551616", b"340282366920938463463374607431768211456",
+                                                               b"99999999999999999999", b"007", b"00", b"\xd9\xa3", b"1\xc2\xb2"])
+                files.append(TFile(ln, [b".pad", nm], bytes(ln), pad=True))
+                continue
+            if k == 2 and rng.chance(1, 3):
+                # NOT padding: a second component that some number parsers accept but that is not all-numeric characters
+                ln = rng.range(1, 6)
+                nm = rng.choice([b"+5", b"-1", b"1_0", b"12a", b" 7", b"7 ", b"0x10", b"1e3"])
+                files.append(TFile(ln, [b".pad", nm], bytes(ln) if rng.chance(1, 2) else gen_content(rng, ln)))
                 continue
             ln = 0 if k == 1 else rng.range(1, 12)
             depth = rng.range(1, 3)
@@ -160,6 +170,9 @@ def gen_world(rng, ntorrents=None, features=()):
     for g in w.gts:
         for fi, f in enumerate(g.files):
             if f.pad:
+                if f.length > 0 and rng.chance(1, 2):
+                    # the padding file as a download client leaves it: zeros, under its own name, in a scan directory
+                    w.add_file(scan_names[0] + (g.name,) + tuple(f.path), bytes(f.length))
                 continue
             # prior export state: exact / shorter prefix / longer / damaged / zero-tailed partial / absent (3 in 8)
             k = rng.below(8)
